@@ -14,7 +14,8 @@ META = {
         "comparison between a self-derived plain value and an other-derived value whose operator is the dunder's own (mirrored when self is on the right) - both isinstance branches are "
         "separate obligations; unrecognised forms are reported as undecided, not as alarms; (b) in the body of every mutator no mutation of the data is followed by a lookup that raises "
         "for a missing key / index / element, so an operation that raises has not changed content; (c) a method that applies the same-named built-in operation to the underlying "
-        "container passes its parameters in order and unchanged (only wrapped by the conversion), e.g. no index+1, no swapped arguments."
+        "container passes its parameters in order and unchanged (only wrapped by the conversion), e.g. no index+1, no swapped arguments, and applies it to the container itself, not to a "
+        "slice with re-based positions; (e) no JSON writer of the package sorts or skips keys (insertion order is part of dict behaviour for a re-opened collection)."
     ),
     "rule": "obligation = one return of a comparison dunder / one mutator body / one forwarding call site, per defining function",
     "trusted_base": ["engine value provenance"],
@@ -153,4 +154,39 @@ def run_unit(A, unit, rep, tier):
                 else:
                     rep.fail("C03.c", norm_key("C03.c", f.qualname, n.stmt), f"{f.qualname}: `{n.stmt}` does not forward the method's parameters faithfully to the built-in operation: {why}",
                              [n.where() + ": " + n.stmt], g.label)
+        # the same-named built-in operation is applied to the container itself, not to a part of it with
+        # re-based positions (`start + self._data[start:stop].index(v)` differs from list.index for negative start)
+        for n in top:
+            part = None
+            if n.kind == "call_unknown" and n["method"] == opname and n["recv"] is not None and n["recv"].kind == "sub":
+                part = n["recv"]
+            elif n.kind == "maybe_child" and n["what"] == "call:" + opname and n["value"] is not None and n["value"].kind == "sub":
+                part = n["value"]
+            if part is not None and part.args[0].kind == "data" and isinstance(part.args[1], Val) and part.args[1].kind == "slice":
+                if True:
+                    rep.fail("C03.c", norm_key("C03.c", f.qualname, n.stmt, "part"),
+                             f"{f.qualname}: `{n.stmt}` applies `{opname}` to a part of the underlying container and translates the result, instead of forwarding the operation (and its arguments) to the container itself: positions differ from the built-in for arguments the translation does not cover (negative bounds)",
+                             [n.where() + ": " + n.stmt], g.label)
     rep.floor("forwarding call sites", n_fwd, 10)
+    # (e) the serialised form keeps the dict's insertion order and every key: a writer that sorts (or skips) keys
+    #     makes a re-opened collection iterate / popitem in another order than the dict the same operations build
+    m = A.model
+    n_dump = 0
+    for f in m.functions:
+        if f.module.name.endswith("_collections_abc"):
+            continue
+        for n in ast.walk(f.node):
+            if not isinstance(n, ast.Call):
+                continue
+            r = m.resolve_dotted(f.module, n.func) if isinstance(n.func, (ast.Name, ast.Attribute)) else None
+            if r is None or r[0] != "ext" or r[1] not in ("json.dumps", "json.dump"):
+                continue
+            n_dump += 1
+            bad = [k.arg for k in n.keywords if k.arg in ("sort_keys", "skipkeys") and not (isinstance(k.value, ast.Constant) and not k.value.value)]
+            if bad:
+                rep.fail("C03.e", norm_key("C03.e", f.qualname, ",".join(bad)),
+                         f"{f.qualname}: `{ast.unparse(n)[:80]}` passes {bad}: the stored form no longer has the collection's key order / keys, so another handle on the resource orders (or lacks) entries differently from a built-in dict",
+                         [f"{f.module.path}:{n.lineno}"], f.qualname)
+            else:
+                rep.ok("C03.e", f"C03.e {f.qualname}: the JSON writer keeps insertion order and all keys")
+    rep.floor("json writer call sites", n_dump, 2)
